@@ -259,6 +259,70 @@ def gen_case(rng, idx, tier):
                 also_get_machine=(idx % 5 == 0), sliver=sliver)
 
 
+def simple_chip(rng, nc=None, links=None, states=None):
+    nc = rng.randint(0, 18) if nc is None else nc
+    states = [rng.choice(APPSTATES + [IDLE] * 4) for _ in range(18)] if states is None else states
+    return dict(nc=nc, states=states, links=rng.getrandbits(6) if links is None else links,
+                sdram=rng.getrandbits(32), sram=rng.getrandbits(32), rtr=rng.getrandbits(11),
+                eth_up=rng.getrandbits(1), ip=[rng.getrandbits(8) for _ in range(4)],
+                eth=[rng.getrandbits(8), rng.getrandbits(8)], answer="ok")
+
+
+def skeleton(rng, w, h, routes, chips, kind="valid"):
+    grid = [[x, y] for x in range(-1, w + 1) for y in range(-1, h + 1)]
+    if len(grid) > 400:
+        grid = [[-1, -1], [0, 0], [w - 1, h - 1], [w, h], [w - 1, 0], [0, h - 1]] + rng.sample(grid, 60)
+    sver = dict(buffer_size=256, encoding="legacy", name=list(b"SC&MP/SpiNNaker"), version=[1, 33, 0], labels=[],
+                vtext=[], build_date=0, pcpu=0)
+    return dict(mq=grid, kind=kind, dims=[w, h], boot=[0, 0], fill=rng.choice([6, 0, 7]), routes=routes, chips=chips,
+                sver=sver, probes=[], sver_queries=[[255, 255, 0]], contains_queries=[], also_get_machine=False,
+                sliver=(max(w, h) > 12))
+
+
+def gen_exhaustive(rng):
+    """Thorough tier: finite sub-domains enumerated completely -- every table height 1..255 (with widths 1, 2 and
+    255 at the extremes), every 6-bit link mask, every 5-bit core count, every AppState in every core position."""
+    cases = []
+    for h in range(1, 256):
+        w = 255 if h in (1, 255, 8, 9) else rng.choice([1, 2])
+        picks = set([(0, 0), (w - 1, h - 1), (0, h - 1), (w - 1, 0)] +
+                    [(rng.randrange(w), rng.randrange(h)) for _ in range(8)])
+        routes = [[x, y, (7 if (x, y) == (0, 0) else rng.randrange(6)) if (x, y) in picks else 6]
+                  for x in range(w) for y in range(h)]
+        chips = [[x, y, simple_chip(rng)] for (x, y) in sorted(picks)]
+        for k in range(3):
+            if rng.random() < 0.5 and h + k < 256:                  # ghost rows just beyond the height
+                routes.append([0, h + k, rng.randrange(6)])
+                chips.append([0, h + k, simple_chip(rng)])
+        cases.append(skeleton(rng, w, h, routes, chips))
+    # all link masks and all representable core counts on one 8 x 8 machine each
+    routes = [[x, y, 7 if (x, y) == (0, 0) else (x + y) % 6] for x in range(8) for y in range(8)]
+    cases.append(skeleton(rng, 8, 8, routes, [[x, y, simple_chip(rng, links=8 * x + y)] for x in range(8) for y in range(8)]))
+    cases.append(skeleton(rng, 8, 8, routes, [[x, y, simple_chip(rng, nc=(8 * x + y) % 19)] for x in range(8) for y in range(8)]))
+    cases.append(skeleton(rng, 8, 8, routes, [[x, y, simple_chip(rng, nc=(8 * x + y) % 32)] for x in range(8) for y in range(8)],
+                          kind="nc>18"))
+    # every AppState in every core position (18 x 13 chips on a 18 x 13 machine)
+    routes = [[x, y, 7 if (x, y) == (0, 0) else 2] for x in range(18) for y in range(13)]
+    chips = []
+    for x in range(18):
+        for y in range(13):
+            st = [IDLE] * 18
+            st[x] = APPSTATES[y]
+            chips.append([x, y, simple_chip(rng, nc=18, states=st)])
+    cases.append(skeleton(rng, 18, 13, routes, chips))
+    # every router block size 0..2047 is covered by the random stream only in part: sweep it over 8 machines
+    for k in range(8):
+        routes = [[x, y, 7 if (x, y) == (0, 0) else 1] for x in range(16) for y in range(16)]
+        chips = []
+        for x in range(16):
+            for y in range(16):
+                c = simple_chip(rng)
+                c["rtr"] = 256 * k + 16 * x + y
+                chips.append([x, y, c])
+        cases.append(skeleton(rng, 16, 16, routes, chips))
+    return cases
+
+
 # ------------------------------------------------------------------------------------------- ground truth
 class Truth(object):
     """What the simulated machine is, computed from the case alone (no reference to rig or to the model)."""
@@ -678,6 +742,61 @@ HEADER = ("From Coq Require Import ZArith String List Bool Uint63. Import ListNo
           "  ((Uint63.to_Z x, Uint63.to_Z y), mkReply (Uint63.to_Z a) (Uint63.to_Z b) (Uint63.to_Z c) (U d)).\n")
 
 
+def process_batch(chk, sim, cases, state, built):
+    nchunk = 25 if chk.tier == "quick" else 100
+    chunks = [cases[i:i + nchunk] for i in range(0, len(cases), nchunk)]
+    outs = [o for part in chk.impl_parallel("impl_c14.py", chunks, timeout=3000) for o in part]
+    keep = [i for i, o in enumerate(outs) if o != ["skipped"]]
+    cases, outs = [cases[i] for i in keep], [outs[i] for i in keep]
+    for c, o in zip(cases, outs):
+        chk.count("kind:" + c["kind"])
+        chk.count("size:%s" % ("sliver" if c.get("sliver") else "%dx%d" % (min(c["dims"][0], 12) // 4 * 4, min(c["dims"][1], 12) // 4 * 4)))
+        chk.count("sver:" + c["sver"]["encoding"])
+        chk.count("iobuf-blocks:%d" % max([len(p["iobuf"]) for p in c["probes"]] + [0]))
+        for x, y, cs in c["chips"]:
+            chk.count("answer:" + (cs["answer"] if isinstance(cs["answer"], str) else cs["answer"][0]))
+        if isinstance(o, dict):
+            chk.count("outcome:" + o["sysinfo"][0])
+            if isinstance(o.get("constraints"), list) and o["constraints"] and o["constraints"][0] != "err":
+                chk.count("cases-with-global-reservation", 1 if any(k[2] is None for k in o["constraints"]) else 0)
+                chk.count("cases-with-chip-reservation", 1 if any(k[2] is not None for k in o["constraints"]) else 0)
+        chk.note_case(c, nontrivial(c, o))
+        for key, why in oracle(c, o):
+            if key not in state["seen_keys"] or len(chk.failing) < 5:
+                chk.fail_input("probe:" + key, why, dict(case=c, observed=o if len(json.dumps(o)) < 20000 else "(large)"))
+            state["seen_keys"].add(key)
+    if cases and state["sample"] is None:
+        k = min(range(len(cases)), key=lambda i: abs(len(cases[i]["chips"]) - 6) + (0 if cases[i]["kind"] == "valid" else 100))
+        state["sample"] = dict(case=cases[k], implementation=outs[k])
+    # model
+    if chk.model_ok and built and not state["model_error"]:
+        try:
+            idx = [i for i, o in enumerate(outs) if isinstance(o, dict)]
+            named = [case_exprs(cases[i], outs[i], sim, "c%d" % i) for i in idx]
+            order = sorted(range(len(named)), key=lambda k: -len(named[k][1]))       # big cases first, spread over shards
+            nshard = max(1, min(24, len(named) // 4))
+            buckets = [[] for _ in range(nshard)]
+            for r, k in enumerate(order):
+                buckets[r % nshard].append(k)
+            flat_order = [k for b in buckets for k in b]
+            got = coq_eval_cases(chk, [named[k] for k in flat_order], shard=max(len(b) for b in buckets))
+            vals = [None] * len(named)
+            for k, v in zip(flat_order, got):
+                vals[k] = v
+            for i, (names, _, _), v in zip(idx, named, vals):
+                chk.traces_validated += 1
+                state["ncmp"] += 1
+                wrong = [n for n, b in zip(names, v) if b is not True] if len(v) == len(names) else ["shape:%d/%d" % (len(v), len(names))]
+                if wrong:
+                    state["nbad"] += 1
+                    if state["nbad"] <= 3:
+                        chk.disagree("model and implementation differ on %s (machine %r, kind %s)"
+                                     % (", ".join(wrong[:6]), cases[i]["dims"], cases[i]["kind"]),
+                                     dict(case=cases[i], observed=outs[i] if len(json.dumps(outs[i])) < 20000 else "(large)"))
+        except RuntimeError as e:
+            state["model_error"] = str(e)
+
+
 def run(chk, args):
     import importlib.util
     spec = importlib.util.spec_from_file_location("sim_machine_c14", os.path.join(lib.VERIF, "harness", "sim_machine_c14.py"))
@@ -702,77 +821,39 @@ def run(chk, args):
         rp = json.load(open(args.replay))
         cases = [f["replay"]["case"] for f in rp.get("failures", []) if "case" in f.get("replay", {})]
         cases += [b["replay"]["case"] for b in rp.get("no_longer_checks", []) if "case" in b.get("replay", {})]
+        batches = [cases]
     else:
         n = 300 if chk.tier == "quick" else 10000
-        cases = [gen_case(chk.rng, i, chk.tier) for i in range(n)]
-    corpus = os.path.join(lib.VERIF, "corpus", "C14.json")
-    if os.path.exists(corpus):
-        cases = json.load(open(corpus)) + cases
-    nchunk = 25 if chk.tier == "quick" else 200
-    chunks = [cases[i:i + nchunk] for i in range(0, len(cases), nchunk)]
-    outs = [o for part in chk.impl_parallel("impl_c14.py", chunks, timeout=3000) for o in part]
-    keep = [i for i, o in enumerate(outs) if o != ["skipped"]]
-    cases, outs = [cases[i] for i in keep], [outs[i] for i in keep]
-    seen_keys = set()
-    for c, o in zip(cases, outs):
-        chk.count("kind:" + c["kind"])
-        chk.count("size:%s" % ("sliver" if c.get("sliver") else "%dx%d" % (min(c["dims"][0], 12) // 4 * 4, min(c["dims"][1], 12) // 4 * 4)))
-        chk.count("sver:" + c["sver"]["encoding"])
-        chk.count("iobuf-blocks:%d" % max([len(p["iobuf"]) for p in c["probes"]] + [0]))
-        for x, y, cs in c["chips"]:
-            chk.count("answer:" + (cs["answer"] if isinstance(cs["answer"], str) else cs["answer"][0]))
-        if isinstance(o, dict):
-            chk.count("outcome:" + o["sysinfo"][0])
-            if isinstance(o.get("constraints"), list) and o["constraints"] and o["constraints"][0] != "err":
-                chk.count("cases-with-global-reservation", 1 if any(k[2] is None for k in o["constraints"]) else 0)
-                chk.count("cases-with-chip-reservation", 1 if any(k[2] is not None for k in o["constraints"]) else 0)
-        small = dict(c)
-        chk.note_case(small, nontrivial(c, o))
-        for key, why in oracle(c, o):
-            if key not in seen_keys or len(chk.failing) < 5:
-                chk.fail_input("probe:" + key, why, dict(case=c, observed=o if len(json.dumps(o)) < 20000 else "(large)"))
-            seen_keys.add(key)
-    if cases:
-        k = min(range(len(cases)), key=lambda i: abs(len(cases[i]["chips"]) - 6) + (0 if cases[i]["kind"] == "valid" else 100))
-        chk.sample(dict(case=cases[k], implementation=outs[k]))
-    # model
+        per = 300 if chk.tier == "quick" else 1000
+
+        def stream():
+            first = gen_exhaustive(chk.rng) if chk.tier == "thorough" else []
+            corpus = os.path.join(lib.VERIF, "corpus", "C14.json")
+            if os.path.exists(corpus):
+                first = json.load(open(corpus)) + first
+            for k in range(0, len(first), per):
+                yield first[k:k + per]
+            for k in range(0, n, per):
+                yield [gen_case(chk.rng, i, chk.tier) for i in range(k, min(n, k + per))]
+        batches = stream()
+    state = dict(seen_keys=set(), nbad=0, ncmp=0, model_error=None, sample=None, base=0)
+    for cases in batches:
+        process_batch(chk, sim, cases, state, built)
+    if state["sample"]:
+        chk.sample(state["sample"])
     if chk.model_ok and built:
-        try:
-            idx = [i for i, o in enumerate(outs) if isinstance(o, dict)]
-            named = [case_exprs(cases[i], outs[i], sim, "c%d" % i) for i in idx]
-            order = sorted(range(len(named)), key=lambda k: -len(named[k][1]))       # big cases first, spread over shards
-            nshard = max(1, min(24, len(named) // 4)) if chk.tier == "quick" else max(1, len(named) // 40)
-            buckets = [[] for _ in range(nshard)]
-            for r, k in enumerate(order):
-                buckets[r % nshard].append(k)
-            flat_order = [k for b in buckets for k in b]
-            got = []
-            for b in [buckets[i:i + 24] for i in range(0, nshard, 24)]:
-                ks = [k for bb in b for k in bb]
-                got += coq_eval_cases(chk, [named[k] for k in ks], shard=max(len(bb) for bb in b))
-            vals = [None] * len(named)
-            for k, v in zip(flat_order, got):
-                vals[k] = v
-            nbad = 0
-            for i, (names, _, _), v in zip(idx, named, vals):
-                chk.traces_validated += 1
-                wrong = [n for n, b in zip(names, v) if b is not True] if len(v) == len(names) else ["shape:%d/%d" % (len(v), len(names))]
-                if wrong:
-                    nbad += 1
-                    if nbad <= 3:
-                        chk.disagree("model and implementation differ on %s (machine %r, kind %s)"
-                                     % (", ".join(wrong[:6]), cases[i]["dims"], cases[i]["kind"]),
-                                     dict(case=cases[i], observed=outs[i] if len(json.dumps(outs[i])) < 20000 else "(large)"))
-            if not nbad:
-                chk.oblige("correspondence:probe (%d machines: SystemInfo, its views, Machine and its answers, reservations, "
-                           "table lengths, sver, status, IOBUF, router counters; exact equality)" % len(idx), True)
-        except RuntimeError as e:
-            chk.oblige("correspondence:model-evaluates", False, str(e))
+        if state["model_error"]:
+            chk.oblige("correspondence:model-evaluates", False, state["model_error"])
+        elif not state["nbad"]:
+            chk.oblige("correspondence:probe (%d machines: SystemInfo, its views, Machine and its answers, reservations, "
+                       "table lengths, sver, status, IOBUF, router counters; exact equality)" % state["ncmp"], True)
     chk.coverage["rule"] = ("random machine states: P2P dimensions <= 12x12 (every 50th a 255xk / kx255 sliver, k <= 3), holes "
                             "(random / row / corner / many), boot chip anywhere, table slots outside the dimensions filled with "
                             "none / east / garbage, chips silent / refusing / flaky (answering on try 2..5 or never), core counts "
                             "0..18 with a common value, core-state patterns fresh / shared-busy / shared+own / random / all busy / "
                             "all idle, link patterns all / periphery / random / none, free-memory figures with a common value and "
                             "32-bit extremes, router blocks 0..2047, both sver encodings, 1-3 probed cores with IOBUF chains of 0-5 "
-                            "blocks; every 8th machine malformed (correspondence only); non-trivial = well-formed machine on which "
+                            "blocks; every 8th machine malformed (correspondence only); thorough tier adds exhaustive sweeps (every table height "
+                            "1..255, every link mask, every core count 0..31, every AppState in every core position, every router "
+                            "block size); non-trivial = well-formed machine on which "
                             "get_system_info reports >= 2 chips; distinct by hash of the whole machine state")
